@@ -16,7 +16,7 @@
 (* Values are records [t, i, s] (type tag, integer, lower-cased string) so  *)
 (* that valid, invalid and observed values share one comparable shape.      *)
 (***************************************************************************)
-EXTENDS Integers, Sequences, FiniteSets
+EXTENDS Integers, Sequences, FiniteSets, TLC
 
 V(t, i, s) == [t |-> t, i |-> i, s |-> s]
 Unset == V("unset", 0, "")
@@ -25,6 +25,9 @@ NA == V("na", 0, "")
 StrV(s) == V("str", 0, s)
 IntV(i) == V("int", i, "")
 BoolV(b) == V("bool", IF b THEN 1 ELSE 0, "")
+
+\* compact text form used in edge dumps and for observed values in traces
+Show(v) == v.t \o ":" \o (IF v.t = "str" THEN v.s ELSE ToString(v.i))
 
 Settings == {"rm", "fs", "jq", "rf", "nb"}
 SettingSeq == <<"rm", "fs", "jq", "rf", "nb">>
@@ -67,9 +70,13 @@ Anc(T, n) == IF T.par[n] = 0 THEN {} ELSE {T.par[n]} \cup Anc(T, T.par[n])
 Subtree(T, x) == {n \in Nodes(T) : n = x \/ x \in Anc(T, n)}
 
 \* nodes strictly below x that have no override of their own between them and x
-InheritsThrough(T, S, set, x) ==
-  {n \in Subtree(T, x) \ {x} :
-     \A m \in (Anc(T, n) \cup {n}) \cap (Subtree(T, x) \ {x}) : S[set][m] = Unset}
+\* (walking up from n, x is met before any node that has its own value)
+RECURSIVE Reaches(_, _, _, _, _)
+Reaches(T, S, set, n, x) ==
+  IF n = x THEN TRUE
+  ELSE IF S[set][n] # Unset \/ T.par[n] = 0 THEN FALSE
+  ELSE Reaches(T, S, set, T.par[n], x)
+InheritsThrough(T, S, set, x) == {n \in Nodes(T) \ {x} : Reaches(T, S, set, n, x)}
 
 \* Effective value: first set value along instance, its class, ancestors, else the default
 RECURSIVE Eff(_, _, _, _)
